@@ -9,13 +9,18 @@ exec("from pregex.core.pre import Pregex\nfrom pregex.core.classes import *\nfro
      "from pregex.core.exceptions import *\nfrom pregex.core.operators import *\nfrom pregex.core.quantifiers import *\n"
      "from pregex.core.groups import *\nfrom pregex.core.assertions import *\n", ns)
 srcs = json.load(sys.stdin)
-out = []
-for s in srcs:
+# evaluation order differs per process (seeded by the hash seed): results must not depend on what was built before
+import random
+order = list(range(len(srcs)))
+random.Random(int(os.environ.get("PYTHONHASHSEED", "0") or 0) * 7919 + 1).shuffle(order)
+out = [None] * len(srcs)
+for i in order:
+    s = srcs[i]
     try:
         o = eval(s, ns)
-        out.append(["ok", str(o), type(o).__name__])
+        out[i] = ["ok", str(o), type(o).__name__]
     except RecursionError:
-        out.append(["exc", "RecursionError", ""])
+        out[i] = ["exc", "RecursionError", ""]
     except Exception as e:
-        out.append(["exc", type(e).__name__, str(e)[:120]])
+        out[i] = ["exc", type(e).__name__, str(e)[:120]]
 json.dump(out, sys.stdout)
